@@ -335,6 +335,13 @@ def job(arg):
             for second in ("ret-payload", "raise-RuntimeError", "raise-Forbidden-text"):
                 for ack_delay in (0.0, 0.2, 2.5):
                     slow_pair(res, first, second, ack_delay)
+    elif kind == "reuse-deep":
+        for it in items:
+            if it[0] == "reuse":
+                token_reuse(res, it[1], it[2])
+            else:
+                slow_pair(res, it[1], it[2], it[3])
+        res.sample({"deep": list(items[0])})
     else:
         base, _ = isolation_run(None, 0, P1, False)
         for (o, when, peer, slow) in items:
@@ -377,6 +384,14 @@ def run(tier, seed, jobs):
     iso = [(o, when, peer, slow) for o in failing for when in (-0.05, 0.2, 0.7) for peer in (P1, P2) for slow in (False, True)]
     work += [("iso", iso[i::16]) for i in range(16)]
     work.append(("reuse", None))
+    if tier == "thorough":
+        # every ordered pair of handler outcomes behind one another, five acknowledgement delays; token re-use at nine gaps
+        deep = [("pair", a, b, d) for a in names for b in names for d in (0.0, 0.05, 0.2, 2.5, 5.0)]
+        deep += [("reuse", con, gap) for con in (True, False) for gap in (0.0, 0.05, 0.09, 0.1, 0.11, 0.2, 0.45, 0.5, 0.55)]
+        work += [("reuse-deep", deep[i::64]) for i in range(64)]
+        iso2 = [(o, when, peer, slow) for o in names for when in (-0.05, 0.0, 0.05, 0.1, 0.2, 0.3, 0.5, 0.7, 1.9, 2.0)
+                for peer in (P1, P2) for slow in (False, True)]
+        work += [("iso", iso2[i::64]) for i in range(64)]
     res = core.prun(job, work, jobs)
     res.scenarios["table"] = {"outcomes": len(names), "cells": len(cells), "isolation_runs": len(iso)}
     return res
